@@ -513,6 +513,9 @@ def run(pm, ctx):
     ctx.import_rules(pm, 'C02', {'C02-R12'}, 'C04-R11',
                      'the unwrap helpers of the IR peel exactly the wrappers their names say '
                      '(shared with C02-R12)')
+    ctx.import_rules(pm, 'C02', {'C02-R4'}, 'C04-R13',
+                     'aliases and classes are linearised target / parent first: the generated module '
+                     'a value round-trips through imports without a NameError (shared with C02-R4)')
     ctx.import_rules(pm, 'C05', {'C05-R4'}, 'C04-R12',
                      'the reflection tables the coder reads hold every inherited field name (shared with C05-R4)')
     from ..effects import run_decisions
